@@ -23,8 +23,8 @@ Lemma down_heap_from n lo : forall fuel s i, n <= length s -> n <= i + fuel -> l
   heap_from (fst (down_go fuel s i n)) lo n.
 Proof.
   induction fuel as [|f IH]; intros s i Hlen Hf Hlo Hpre Hbr.
-  - cbn [HP.down_go fst]. intros p c Hp Hc Hpc. apply Hpre; auto. unfold is_child in Hpc. lia.
-  - cbn [HP.down_go]. destruct (Nat.leb_spec n (2 * i + 1)) as [Hn|Hn].
+  - cbn [HeapSift_proto.down_go fst]. intros p c Hp Hc Hpc. apply Hpre; auto. unfold is_child in Hpc. lia.
+  - cbn [HeapSift_proto.down_go]. destruct (Nat.leb_spec n (2 * i + 1)) as [Hn|Hn].
     + cbn [fst]. intros p c Hp Hc Hpc. apply Hpre; auto. unfold is_child in Hpc. lia.
     + destruct (choice_ok A d lt lt_asym s i n Hn) as (Hij & Hjn & Hjk). cbv zeta in Hij, Hjn, Hjk.
       set (j := if (2 * i + 1 + 1 <? n) && lt (nth (2 * i + 1 + 1) s d) (nth (2 * i + 1) s d) then 2 * i + 1 + 1 else 2 * i + 1) in *.
@@ -35,7 +35,7 @@ Proof.
         -- rewrite swap_length; auto.
         -- unfold is_child in Hij. lia.
         -- unfold is_child in Hij. lia.
-        -- intros p c Hp Hc Hpc Hpj. unfold HP.ok. rewrite !nth_swap by auto.
+        -- intros p c Hp Hc Hpc Hpj. unfold HeapSift_proto.ok. rewrite !nth_swap by auto.
            destruct (Nat.eqb_spec p j) as [-> | _]; [congruence|].
            destruct (Nat.eqb_spec p i) as [-> | Hpi].
            ++ destruct (Nat.eqb_spec c j) as [-> | Hcj].
@@ -47,7 +47,7 @@ Proof.
                  --- apply (Hbr p j); auto.
                  --- apply Hpre; auto.
         -- intros g c Hg Hgj Hc Hjc. assert (g = i) by (unfold is_child in *; lia). subst g.
-           unfold HP.ok. rewrite !nth_swap by auto. rewrite Nat.eqb_refl.
+           unfold HeapSift_proto.ok. rewrite !nth_swap by auto. rewrite Nat.eqb_refl.
            destruct (Nat.eqb_spec i j) as [Eij|_]; [unfold is_child in Hij; lia|].
            destruct (Nat.eqb_spec c j) as [-> | _]; [unfold is_child in Hjc; lia|].
            destruct (Nat.eqb_spec c i) as [-> | _]; [unfold is_child in *; lia|].
@@ -58,7 +58,7 @@ Qed.
 
 Lemma down_go_length : forall fuel s i n, i < length s -> n <= length s -> length (fst (down_go fuel s i n)) = length s.
 Proof.
-  induction fuel as [|f IH]; intros s i n Hi Hn; cbn [HP.down_go]; [reflexivity|].
+  induction fuel as [|f IH]; intros s i n Hi Hn; cbn [HeapSift_proto.down_go]; [reflexivity|].
   destruct (Nat.leb_spec n (2 * i + 1)); [reflexivity|].
   set (j := if (2 * i + 1 + 1 <? n) && lt (nth (2 * i + 1 + 1) s d) (nth (2 * i + 1) s d) then 2 * i + 1 + 1 else 2 * i + 1).
   assert (Hj : j < n) by (unfold j; destruct (Nat.ltb_spec (2 * i + 1 + 1) n); cbn [andb]; [destruct (lt _ _)|]; lia).
@@ -66,7 +66,7 @@ Proof.
 Qed.
 Lemma down_go_perm : forall fuel s i n, i < length s -> n <= length s -> Permutation (fst (down_go fuel s i n)) s.
 Proof.
-  induction fuel as [|f IH]; intros s i n Hi Hn; cbn [HP.down_go]; [reflexivity|].
+  induction fuel as [|f IH]; intros s i n Hi Hn; cbn [HeapSift_proto.down_go]; [reflexivity|].
   destruct (Nat.leb_spec n (2 * i + 1)); [reflexivity|].
   set (j := if (2 * i + 1 + 1 <? n) && lt (nth (2 * i + 1 + 1) s d) (nth (2 * i + 1) s d) then 2 * i + 1 + 1 else 2 * i + 1).
   assert (Hj : j < n) by (unfold j; destruct (Nat.ltb_spec (2 * i + 1 + 1) n); cbn [andb]; [destruct (lt _ _)|]; lia).
